@@ -226,9 +226,9 @@ func (g *Gen) execInstr(st *State, in ssa.Instruction) {
 				if len(cs.Params) > 1 {
 					binds[cs.Params[1]] = g.value(st, x.Value)
 				}
-				ctx := &specCtx{g: g, st: st, old: st, binds: binds, oldIsPre: true}
+				ctx := &specCtx{g: g, st: st, old: g.entry, binds: binds}
 				for _, c := range cs.Requires {
-					g.oblige(st, "requires", "callee "+cs.Name+" "+c.ID, "map update "+name+": "+c.Src, g.evalBool(ctx, c.E))
+					g.oblige(st, "requires", "callee "+cs.Name+" "+c.ID, "map update "+name+": "+c.Src, g.evalGoal(ctx, c.E))
 				}
 			}
 		}
@@ -269,6 +269,33 @@ func (g *Gen) execInstr(st *State, in ssa.Instruction) {
 		g.note("chan", "select not modelled: outcome unconstrained")
 	case *ssa.Send:
 		g.note("chan", "channel send not modelled")
+		if g.spec != nil {
+			name := "chansend:" + g.describeValue(x.Chan)
+			for _, cs := range g.spec.Callees {
+				if cs.Name != name {
+					continue
+				}
+				g.calleeUse[cs]++
+				binds := map[string]Val{}
+				if len(cs.Params) > 0 {
+					binds[cs.Params[0]] = g.value(st, x.X)
+				}
+				ctx := &specCtx{g: g, st: st, old: g.entry, binds: binds}
+				for _, c := range cs.Requires {
+					g.oblige(st, "requires", "callee "+cs.Name+" "+c.ID, "channel send "+name+": "+c.Src, g.evalGoal(ctx, c.E))
+				}
+				if len(cs.Sets) > 0 {
+					nv := map[string]Val{}
+					for _, sc := range cs.Sets {
+						nv[sc.Name] = g.evalSpec(ctx, sc.E)
+					}
+					for n, v := range nv {
+						st.ghosts[n] = v
+						g.noteGhostWrite(n)
+					}
+				}
+			}
+		}
 	case *ssa.Return:
 		g.execReturn(st, x)
 	case *ssa.Panic:
@@ -338,6 +365,7 @@ func (g *Gen) load(st *State, p PtrV) Val {
 	if _, isArr := p.Elem.Underlying().(*types.Array); isArr && len(p.Steps) == 0 && !strings.HasPrefix(p.RootKey, "G:") && p.RootKey != typeKey(p.Elem) {
 		g.unsupported("load of whole array through pointer")
 	}
+	g.checkProtectedAccess(st, p)
 	v := g.loadHeap(st, p)
 	g.assume(st, g.typeInv(v, p.Elem))
 	g.assume(st, g.allocatedInv(st, v, p.Elem))
@@ -353,6 +381,7 @@ func (g *Gen) store(st *State, p PtrV, v Val) {
 		st.cells[p.Cell] = g.cellSet(cur, p.CPath, v)
 		return
 	}
+	g.checkProtectedAccess(st, p)
 	g.storeHeap(st, p, v)
 }
 
@@ -393,6 +422,39 @@ func (g *Gen) unop(st *State, x *ssa.UnOp) Val {
 		r, inv := g.freshVal(x.Type(), "recv")
 		g.assume(st, inv)
 		g.assume(st, g.allocatedInv(st, r, x.Type()))
+		// channel invariant stated by the contract:  callee chanrecv:<name>() (v)  ensures ...
+		if g.spec != nil {
+			name := "chanrecv:" + g.describeValue(x.X)
+			for _, cs := range g.spec.Callees {
+				if cs.Name != name {
+					continue
+				}
+				g.calleeUse[cs]++
+				var results []Val
+				if tv, ok := r.(TupleV); ok {
+					results = tv.E
+				} else {
+					results = []Val{r}
+				}
+				ctx := &specCtx{g: g, st: st, old: st, results: results, resultNames: cs.Results, oldIsPre: true}
+				if len(cs.Sets) > 0 {
+					nv := map[string]Val{}
+					for _, sc := range cs.Sets {
+						nv[sc.Name] = g.evalSpec(ctx, sc.E)
+					}
+					for n, v := range nv {
+						st.ghosts[n] = v
+						g.noteGhostWrite(n)
+					}
+				}
+				for _, c := range cs.Ensures {
+					g.assume(st, g.evalAssume(ctx, c.E))
+					if !g.discovery {
+						g.trustedUsed["channel invariant assumed at receive "+name+": "+c.Src] = true
+					}
+				}
+			}
+		}
 		return r
 	}
 	g.unsupported("unary " + x.Op.String())
@@ -806,7 +868,7 @@ func (g *Gen) execReturn(st *State, r *ssa.Return) {
 	}
 	ctx := &specCtx{g: g, st: st, old: g.entry, results: results, resultNames: g.resultNames(), paramsEntry: true}
 	for _, c := range g.spec.Ensures {
-		goal := g.evalBool(ctx, c.E)
+		goal := g.evalGoal(ctx, c.E)
 		g.oblige(st, "ensures", c.ID, "postcondition "+c.Src, goal)
 	}
 }
@@ -1186,7 +1248,7 @@ func (g *Gen) anchored(st *State, line, kind string) {
 				continue
 			}
 			ctx := &specCtx{g: g, st: st, old: g.entry}
-			g.oblige(st, "assert", c.ID, "assertion "+c.Src, g.evalBool(ctx, c.E))
+			g.oblige(st, "assert", c.ID, "assertion "+c.Src, g.evalGoal(ctx, c.E))
 			g.assertUse[c]++
 		}
 	}
